@@ -163,6 +163,36 @@ Theorem C16_load_side_inhabited :
 Proof. exact good_prog_inhabited. Qed.
 Print Assumptions C16_load_side_inhabited.
 
+(** The same for programs entered by a file, with chains of relative imports and importers outside
+    GOPATH ([good_file], decidable: every import — also those of the entry file, resolved from the
+    pseudo root "main" — finds the directory Go finds and hands its rPath down, nobody imports the
+    entry directory, import paths and directories correspond one to one). *)
+Theorem C16_load_file_partial :
+  forall c, good_file c = true -> y_run_file c = g_run_file c.
+Proof. exact load_file_agree. Qed.
+Print Assumptions C16_load_file_partial.
+
+Theorem C16_load_file_side_inhabited :
+  good_file (mkctx "gp/src" "work" t_file_ok) = true
+  /\ snd (g_run_file (mkctx "gp/src" "work" t_file_ok)) = None
+  /\ In (EvEdge (pth "work/x") (pth "../z") (pth "work/z")) (fst (g_run_file (mkctx "gp/src" "work" t_file_ok)))
+  /\ In (EvEdge (pth "gp/src/q") (pth "r") (pth "gp/src/q/vendor/r")) (fst (g_run_file (mkctx "gp/src" "work" t_file_ok))).
+Proof. exact good_file_inhabited. Qed.
+Print Assumptions C16_load_file_side_inhabited.
+
+(** for packages below GOPATH/src the per-import condition of [good_file] follows from the
+    intrinsic one ([resolve_side], no "vendor" element, not rewritten by gta) *)
+Theorem C16_good_pkg_ok : forall c k, good_pkg c k = true -> pkg_ok c k = true.
+Proof. exact good_pkg_ok. Qed.
+Print Assumptions C16_good_pkg_ok.
+
+(** the side conditions are violated by the refutation witnesses below *)
+Theorem C16_load_file_side_excludes_witnesses :
+  good_file c_relative = false /\ good_file (mkctx "gp/src" "gp/src/e" t_entry_file) = false
+  /\ good_file (mkctx "gp/src" "work" t_rel_root) = false.
+Proof. exact good_file_excludes. Qed.
+Print Assumptions C16_load_file_side_excludes_witnesses.
+
 (** the side condition is violated by every refutation witness below that has an import-path entry *)
 Theorem C16_load_side_excludes_witnesses :
   good_prog c_alias (pth "e") = false /\ good_prog c_shadow (pth "p") = false
